@@ -790,8 +790,8 @@ def run(ctx):
         "order, so its float sum may differ from the serial one in the last place and depend on the schedule - recorded as a "
         "tolerance decision, not checked",
         "which recorded defects the model contains is read from known_findings/C15.json (status known => present); "
-        "the six defects of the snapshot are fixed in /repo; theorems about cfg_snapshot / cfg_round1 / drain = false are historical; "
-        "(a + b) + free-parameter sum being accepted silently is the one remaining known finding (modelled faithfully, no flag)",
+        "the seven defects of the snapshot are fixed in /repo; theorems about cfg_snapshot / cfg_round1 / cfg_round2 / drain = false "
+        "are historical; no known finding is open",
         "an expression that adds to a FreeParameterAnalysis, or frees a single analysis, must raise (TypeError/AttributeError)",
         "when several analyses raise on one instance the pool may raise the exception of any of them (serial: the first)",
     ]
@@ -906,7 +906,7 @@ MANIFEST = {
             "real MockSearch fits, and a direct property oracle on every generated case",
     "note": "Trusted: Coq kernel + vm_compute, the correspondence harness incl. the queue proxies that steer pool schedules. "
             "Likelihoods are integers or multiples of 1/1024 (float rounding of inexact sums in arrival order not covered); OS "
-            "scheduling is represented by availability masks; theorems about cfg_snapshot / cfg_round1 / drain=false describe historical "
+            "scheduling is represented by availability masks; theorems about cfg_snapshot / cfg_round1 / cfg_round2 / drain=false describe historical "
             "trees, not /repo.",
     "technique": "machine-checked proof in Coq (transition-system model, induction over histories and schedules) + vm_compute "
                  "correspondence under steered schedules",
